@@ -805,7 +805,7 @@ func (env *Env) call(n *ast.CallExpr) (Val, error) {
 		names := fx.mapHeapNames(m.T)
 		dom := fx.heapVar(env.heap, names[0], "")
 		return Val{T: bt, L: []string{sSel(sSel(dom, m.one()), fx.mapKeyTerm(mt.Key(), k))}}, nil
-	case "str_contains", "str_concat", "str_upper", "str_lower", "str_lt", "str_sub", "str_at":
+	case "str_contains", "str_concat", "str_upper", "str_lower", "str_lt", "str_sub", "str_at", "str_set", "str_splice", "str_zeros", "str_len":
 		var as []string
 		for i := range n.Args {
 			a, err := arg(i)
@@ -818,7 +818,7 @@ func (env *Env) call(n *ast.CallExpr) (Val, error) {
 		if fname == "str_contains" || fname == "str_lt" {
 			t = bt
 		}
-		if fname == "str_at" {
+		if fname == "str_at" || fname == "str_len" {
 			t = types.Typ[types.Int]
 		}
 		return Val{T: t, L: []string{app(fname, as...)}}, nil
@@ -838,6 +838,25 @@ func (env *Env) call(n *ast.CallExpr) (Val, error) {
 			return Val{}, err
 		}
 		return Val{T: rt, L: []string{t}}, nil
+	case "in":
+		id, ok := n.Args[0].(*ast.Ident)
+		if !ok {
+			return Val{}, fmt.Errorf("in(param)")
+		}
+		if w, ok := fx.ins[id.Name]; ok {
+			return Val{T: types.Typ[types.String], L: []string{w}}, nil
+		}
+		return Val{T: types.Typ[types.String], L: []string{fx.c.fresh("in", "Str")}}, nil
+	case "out":
+		id, ok := n.Args[0].(*ast.Ident)
+		if !ok {
+			return Val{}, fmt.Errorf("out(param)")
+		}
+		if w, ok := fx.outs[id.Name]; ok {
+			return Val{T: types.Typ[types.String], L: []string{w}}, nil
+		}
+		// not a local buffer at this call site: unconstrained
+		return Val{T: types.Typ[types.String], L: []string{fx.c.fresh("out", "Str")}}, nil
 	case "typeid":
 		t, err := env.typeExpr(n.Args[0])
 		if err != nil {
